@@ -2,6 +2,8 @@
 
 package bp
 
+import "github.com/aergoio/aergo/v2/types"
+
 // VerifNewCluster builds a Cluster from a producer id list through the real Update.
 func VerifNewCluster(ids []string) (*Cluster, error) {
 	c := &Cluster{}
@@ -10,3 +12,21 @@ func VerifNewCluster(ids []string) (*Cluster, error) {
 	}
 	return c, nil
 }
+
+// VerifC09Members lists the producer ids by index (0..Size()-1) through the real BpIndex2ID; an index
+// without a member is reported as "".
+func (c *Cluster) VerifC09Members() []string {
+	n := int(c.Size())
+	var out []string
+	for i := 0; i < n; i++ {
+		if id, ok := c.BpIndex2ID(Index(i)); ok {
+			out = append(out, types.IDB58Encode(id))
+		} else {
+			out = append(out, "")
+		}
+	}
+	return out
+}
+
+// VerifC09SnapBlockNo is the real snapBlockNo: the election boundary whose ranking is in force at blockNo.
+func VerifC09SnapBlockNo(blockNo uint64) uint64 { return snapBlockNo(blockNo) }
